@@ -167,7 +167,12 @@ func checkC17(r *core.Run) {
 				// (a method reaching both END and PREPARE is an extracted sequence: analysed in this context)
 				return []flow.Tag{"end"}
 			case callee != nil && w.Info(callee) != nil && core.RecvNamed(callee) == xc && strings.Contains(strings.ToLower(callee.Name()), "timeout"):
+				if rbR.Hits(callee) {
+					return []flow.Tag{"timeoutcheck", "rbstep"}
+				}
 				return []flow.Tag{"timeoutcheck"}
+			case isXARes(w, callee, "Rollback") || (callee != nil && w.Info(callee) != nil && core.RecvNamed(callee) == xc && rbR.Hits(callee) && !endR.Hits(callee) && !prepR.Hits(callee)):
+				return []flow.Tag{"rbstep"}
 			}
 			return nil
 		}}
@@ -175,6 +180,13 @@ func checkC17(r *core.Run) {
 		key := core.ShortKey(cm.Obj)
 		nPrep := 0
 		for _, cp := range res.Calls {
+			// a branch is rolled back only after XA END has been issued for it: MySQL refuses XA ROLLBACK in the
+			// ACTIVE state (XAER_RMFAIL), the branch then stays open on the pooled connection
+			if inSet("rbstep", cp.Tags...) {
+				r.Sites++
+				r.Check(cp.Before.Has("end"), "C17.legal", key+" -> "+core.ShortKey(cp.Callee)+" (XA ROLLBACK) only after XA END was issued", w.Pos(cp.Call.Pos()), "END before ROLLBACK",
+					"a step that rolls the branch back (XA ROLLBACK) can run before XA END was issued for it: not a legal XA sequence — the database refuses the rollback of an ACTIVE branch, which then stays open on the pooled connection and swallows later statements")
+			}
 			if inSet("prepare", cp.Tags...) {
 				nPrep++
 				r.Sites++
